@@ -34,10 +34,9 @@ Qed.
 
 Lemma w_wf : forall t, wf_hist wdm wdd (w_hist t).
 Proof.
-  intros t. split; [| split].
+  intros t. split.
   - cbn. repeat constructor; try discriminate.
   - cbn. intros b1 b2 d1 d2 H1 H2. apply w_functional; cbn in *; intuition.
-  - repeat constructor.
 Qed.
 
 Definition final_fetch (r : res st) (id : N) : option fetched :=
@@ -105,17 +104,15 @@ Definition w_fault_crash_hist (a c : nat) : list hop :=
 
 Lemma w_fault_wf : forall fm cut, wf_hist wdm wdd (w_fault_hist fm cut).
 Proof.
-  intros. split; [| split].
+  intros. split.
   - cbn. repeat constructor; try discriminate.
   - cbn. intros b1 b2 d1 d2 H1 H2. apply w_functional; cbn in *; intuition.
-  - repeat constructor.
 Qed.
-Lemma w_fault_crash_wf : forall a, wf_hist wdm wdd (w_fault_crash_hist a 34).
+Lemma w_fault_crash_wf : forall a c, wf_hist wdm wdd (w_fault_crash_hist a c).
 Proof.
-  intros. split; [| split].
+  intros. split.
   - cbn. repeat constructor; try discriminate.
   - cbn. intros b1 b2 d1 d2 H1 H2. apply w_functional; cbn in *; intuition.
-  - repeat constructor.
 Qed.
 
 (* repaired write path (rollback): the later bulk stays intact, the failed one is absent *)
@@ -142,10 +139,26 @@ Proof. vm_compute. split; reflexivity. Qed.
 Lemma w_fault_meta_restart : run_f0 wdm (w_fault_hist true 34) = Panic.
 Proof. vm_compute. reflexivity. Qed.
 
-(* why crash_cut_ok is needed: rollback truncates docs BEFORE meta. If the meta block had been
-   written completely (the error came from its fsync) and the process dies between the two
-   truncations, a complete meta block without its docs block stays behind. *)
+(* rollback order before commit 5db7f73 (docs cut first): the meta block had been written
+   completely (the error came from its fsync), the process dies between the two truncations: a
+   complete meta block without its docs block stays behind (fault_crash_v0 .. 0 37); then start,
+   bulk 3, start *)
+Definition w_hazard_state : st :=
+  match run wdm [HRestart; HBulk wb1] with
+  | Ok s => match s_proc s with
+            | Some p => St (fault_crash_v0 (s_disk s) p wb2 0 37) None (s_acked s) (s_tried s ++ [wb2]) (s_ops s)
+            | None => s
+            end
+  | _ => st0
+  end.
 Lemma w_rollback_order_hazard :
-  final_fetch (run wdm (w_fault_crash_hist 0 37)) 3 = Some FetchErr /\
-  final_fetch (run wdm (w_fault_crash_hist 0 37)) 2 = Some (Body (d_body wd3)).
+  final_fetch (run_from wdm w_hazard_state [HRestart; HBulk wb3; HRestart]) 3 = Some FetchErr /\
+  final_fetch (run_from wdm w_hazard_state [HRestart; HBulk wb3; HRestart]) 2 = Some (Body (d_body wd3)).
 Proof. vm_compute. split; reflexivity. Qed.
+(* with the meta file cut first the same crash point leaves an orphan docs block: harmless;
+   and a complete meta block implies a complete docs block: the failed bulk is simply durable *)
+Lemma w_rollback_meta_first :
+  final_fetch (run wdm (w_fault_crash_hist 39 0)) 3 = Some (Body (d_body wd3)) /\
+  final_fetch (run wdm (w_fault_crash_hist 0 37)) 3 = Some (Body (d_body wd3)) /\
+  final_fetch (run wdm (w_fault_crash_hist 0 37)) 2 = Some (Body (d_body wd2)).
+Proof. vm_compute. repeat split; reflexivity. Qed.
